@@ -156,6 +156,25 @@ def runDither (t : List String) : String :=
     | _, _, _, _, _ => "bad-case"
   | _ => "bad-case"
 
+/-- canary: `1` = the chosen path dithers nothing, so the bytes equal those of `Dithering::None`;
+`0` = some group is effectively dithered (on the canary image this is visible in the bytes) -/
+def runCanary (t : List String) : String :=
+  match t with
+  | [f, c] =>
+    match getFormat f, getColor c with
+    | some f, some c =>
+      match encoderSet f with
+      | none => "unsupported"
+      | some s =>
+        if !s.support.supportsSize 48 8 then "unsupported-size" else
+        let tok := fun (d : Dithering) =>
+          match effectiveDithering f c d with
+          | none => "panic"
+          | some e => if e == Dithering.none then "1" else "0"
+        s!"C={tok ⟨true, false⟩} A={tok ⟨false, true⟩} CA={tok ⟨true, true⟩}"
+    | _, _ => "bad-case"
+  | _ => "bad-case"
+
 end C19Drv
 
 def runC19 (line : String) : String :=
@@ -165,6 +184,7 @@ def runC19 (line : String) : String :=
   | "D" :: rest => C19Drv.runDecode rest
   | "E" :: rest => C19Drv.runEncode rest
   | "T" :: rest => C19Drv.runDither rest
+  | "G" :: rest => C19Drv.runCanary rest
   | _ => "bad-case"
 
 end Dds.Drv
